@@ -95,3 +95,10 @@ pub broadcast proof fn lemma_wadd_small(a: u64, k: i64)
     reveal(wadd);
     reveal(wrap);
 }
+
+pub broadcast proof fn lemma_wadd_zero(a: u64)
+    ensures #[trigger] wadd(a, 0) == a,
+{
+    reveal(wadd);
+    reveal(wrap);
+}
